@@ -102,6 +102,21 @@ let () =
                | None -> print_endline "A ok ?")
             | M.RAlloc (e, _, _, _) -> push { live = false; ever = false; blk = -1; off = 0 }; Printf.printf "A %s\n" (err_name e)
             | _ -> print_endline "A ?")
+         | "AF" ->
+           (* alloc whose virtual-memory request fails (the implementation answered oom): JitVmModel.alloc_vm ... false *)
+           let (s', r) = M.alloc_vm c s (cz_of_string (List.nth args 0)) false in
+           (match r with
+            | M.RAlloc (M.Ok, id, off, len) ->
+              after_op ~blk:(iz id) { M.cs_st = s'; cs_cur = !cur };
+              push { live = true; ever = true; blk = iz id; off = iz off };
+              (match block_of s' (iz id) with
+               | Some b -> Printf.printf "A ok %d %d %d %s %d %d\n" (iz id) (iz off) (iz len) (digest b) (iz b.M.b_bytes) (iz b.M.b_pool)
+               | None -> print_endline "A ok ?")
+            | M.RAlloc (e, _, _, _) ->
+              after_op { M.cs_st = s'; cs_cur = !cur };
+              push { live = false; ever = false; blk = -1; off = 0 }; Printf.printf "A %s\n" (err_name e)
+            | _ -> print_endline "A ?")
+         | "V" -> print_endline "V 1"
          | "R" ->
            let h = ai 0 in
            if h < 0 || h >= !nh || not !handles.(h).live then print_endline "R skip"
